@@ -742,11 +742,12 @@ Proof.
   assert (Hps : sr_wf (sr (nd s)) -> forall p, In p (ps ++ [(b, off, len)]) -> blob_wf (fst (fst p))).
   { intros (S1 & S2 & S3) p Hin. apply in_app_or in Hin. destruct Hin as [Hin|[<-|[]]]; [|exact Hp].
     destruct first; [inversion Ei; subst; contradiction|]. exact (S3 _ Ei _ Hin). }
-  destruct last; cbn [fst]; (split; [|cbn; auto]); intros (H1 & H2 & H3); (split; [exact H1|split; [exact H2|]]);
-    destruct H3 as (S1 & S2 & S3); cbn; repeat split; auto.
+  destruct last; [destruct (snap_ahead _ _)|]; cbn [fst]; (split; [|cbn; auto]); intros (H1 & H2 & H3);
+    (split; [exact H1|split; [exact H2|]]); destruct H3 as (S1 & S2 & S3); cbn; repeat split; auto.
   - intros b0 Hb0. inversion Hb0; subst b0.
     destruct (assemble_snap _) eqn:Ea; [|exact I]. eapply pieces_first_good; [|exact Ea].
     apply Hps. repeat split; auto.
+  - intros ? Hq. discriminate.
   - intros ? Hq. discriminate.
   - intros ps0 Hq. inversion Hq; subst ps0. apply Hps. repeat split; auto.
 Qed.
